@@ -164,7 +164,7 @@ class Boundary(object):
                 raise
             if rec is not None:
                 G, F = w.get_primal_variables()
-                rec["inner"].append({"status": str(status), "value": value, "solver": name,
+                rec["inner"].append({"status": str(status), "value": value, "solver": name, "kw": dict(kw),
                                      "G": None if G is None else np.array(G, dtype=float, copy=True),
                                      "F": None if F is None else np.array(F, dtype=float, copy=True)})
             if action == "none":
